@@ -114,8 +114,13 @@ def extract_minimize():
         (r"std::abs\(actu_red\) < opts\.ftol && pred_red < opts\.ftol", "fabs(actu_red) < ftol && pred_red < ftol", 1),
         (r"status = SolveResult::Status::(\w+);", r"status = ST_\1;", 2),
         (r"d\.cwiseProduct\(dx\)\.stableNorm\(\) < opts\.ptol \* static_cast<double>\(dx\.size\(\)\)", "st->ddx_n < ptol * st->dxsize", 1),
-        (r"return \{\n\s+\.status = status\.value_or\(SolveResult::Status::MaxIters\),\n\s+\.iter\s+= iter,\n\s+\.time[^\n]*\n\s+\};",
-         "*out_iter = iter;\n  return (status != ST_NONE) ? status : ST_MaxIters;", 1),
+        (r"return \{\n\s+\.status = ([^\n]+),\n\s+\.iter\s+= ([^\n]+),\n\s+\.time[^\n]*\n\s+\};",
+         r"*out_iter = (\2);\n  *out_conv = (status != ST_NONE);\n  *out_status = status;\n  return (\1);", 1),
+        (r"status\.value_or\(SolveResult::Status::(\w+)\)", r"((status != ST_NONE) ? status : ST_\1)", (0, 4)),
+        (r"status\.value\(\)", "OPT_VALUE(status)", (0, 4)),
+        (r"status\.has_value\(\)", "(status != ST_NONE)", (0, 4)),
+        (r"SolveResult::Status::(\w+)", r"ST_\1", (0, 8)),
+        (r"opts\.max_iter", "max_iter", (0, 8)),
     ]
     body, log = apply_rules(body, rules)
     if re.search(r"std::|auto |opts\.|Eigen|fpow|SolveResult", body):
@@ -147,15 +152,18 @@ def minimize_c_file():
            '  __CPROVER_loop_invariant(iter <= max_iter && st->cost_n >= 0.0 && (status == ST_NONE || status == ST_Ftol || status == ST_Ptol)) \\\n'
            '  __CPROVER_loop_invariant(st->ncb >= 1 && st->ncb - 1 <= iter && st->cost_n <= cost0) \\\n'
            '  __CPROVER_decreases((status == ST_NONE ? 1u : 0u) + (max_iter - iter))\n\n'
-           'int minimize_skel(struct state *st, unsigned max_iter, double ftol, double ptol, unsigned *out_iter)\n'
-           '__CPROVER_requires(__CPROVER_is_fresh(st, sizeof(*st)) && __CPROVER_is_fresh(out_iter, sizeof(*out_iter)))\n'
+           '#define OPT_VALUE(s) (__CPROVER_assert((s) != ST_NONE, "std::optional::value() on an engaged optional"), (s))\n'
+           'int minimize_skel(struct state *st, unsigned max_iter, double ftol, double ptol, unsigned *out_iter, bool *out_conv, int *out_status)\n'
+           '__CPROVER_requires(__CPROVER_is_fresh(st, sizeof(*st)) && __CPROVER_is_fresh(out_iter, sizeof(*out_iter)) && __CPROVER_is_fresh(out_conv, sizeof(*out_conv)) && __CPROVER_is_fresh(out_status, sizeof(*out_status)))\n'
            '__CPROVER_requires(st->cost_n >= 0.0 && st->ncb == 0 && max_iter < 4000000000u)\n'
            '__CPROVER_ensures(*out_iter <= max_iter)\n'
            '__CPROVER_ensures((__CPROVER_return_value == ST_MaxIters) ==> (*out_iter == max_iter))\n'
+           '__CPROVER_ensures((__CPROVER_return_value == ST_MaxIters) == !(*out_conv))\n'
+           '__CPROVER_ensures((*out_conv) ==> (__CPROVER_return_value == *out_status))\n'
            '__CPROVER_ensures(__CPROVER_return_value == ST_MaxIters || __CPROVER_return_value == ST_Ftol || __CPROVER_return_value == ST_Ptol)\n'
            '__CPROVER_ensures(st->cost_n <= __CPROVER_old(st->cost_n))\n'
-           '__CPROVER_assigns(*st, *out_iter)\n{\n' + body + '\n}\n\n'
-           'void h_min(void) { struct state *st; unsigned mi; double ft, pt; unsigned *oi; minimize_skel(st, mi, ft, pt, oi); }\n')
+           '__CPROVER_assigns(*st, *out_iter, *out_conv, *out_status)\n{\n' + body + '\n}\n\n'
+           'void h_min(void) { struct state *st; unsigned mi; double ft, pt; unsigned *oi; bool *oc; int *os; minimize_skel(st, mi, ft, pt, oi, oc, os); }\n')
     return src, log
 
 
